@@ -48,7 +48,9 @@ void harness(void){
   I->contourIndex=vt_char(); __CPROVER_assume(I->contourIndex>=0&&I->contourIndex<ncont);
   I->PERIndex=vt_char(); __CPROVER_assume(I->PERIndex>=0&&I->PERIndex<3);
   for(int k=0;k<4;k++) __CPROVER_assume(I->LTPIndex[k]>=0&&I->LTPIndex[k]<(8<<I->PERIndex));
-  I->LTP_scaleIndex=vt_char(); __CPROVER_assume(I->LTP_scaleIndex>=0&&I->LTP_scaleIndex<3); if(cond==CODE_CONDITIONALLY) __CPROVER_assume(I->LTP_scaleIndex==0);
+  I->LTP_scaleIndex=vt_char(); __CPROVER_assume(I->LTP_scaleIndex>=0&&I->LTP_scaleIndex<3); /* precondition of the encoder (silk_assert at encode_indices.c: !condCoding || LTP_scaleIndex==0; the only writer, silk_LTP_scale_ctrl_FLP, stores 0
+     unless condCoding==CODE_INDEPENDENTLY) */
+  if(cond!=CODE_INDEPENDENTLY) __CPROVER_assume(I->LTP_scaleIndex==0);
   I->Seed=vt_char(); __CPROVER_assume(I->Seed>=0&&I->Seed<4);
   SideInfoIndices want=*I;
   silk_encode_indices(&enc,&re,0,lbrr,cond);
